@@ -119,6 +119,32 @@ def clip_rule(F, R):
         R.ob('RG-clip', name, ok, 'every reported value is %s the clip' % ('>=' if direction == 'ge' else '<=') if ok else detail, v.file)
 
 
+def pfe_sign_normal(fed):
+    """One spelling for a signed quotient:  (S · φ(c ? ∓1 : ±1)) / D  and  φ(c ? ∓1 : ±1) · (S / D)  become
+    φ(c ? (∓S)/D : (±S)/D), the form the PFE rules read (−(a/b) is spelled (−a)/b throughout the value graph)."""
+    from .terms import map_term
+
+    def pm(t):
+        return t in (lit(1.0), lit(-1.0))
+
+    def signed(a, sgn, D):
+        return op('div', a if sgn == lit(1.0) else op('neg', a), D)
+
+    def rw(n):
+        if n[0] == 'op' and n[1] == 'div' and n[2][0][0] == 'op' and n[2][0][1] == 'mul' and len(n[2][0][2]) == 2:
+            a, b = n[2][0][2]
+            for S, ph in ((a, b), (b, a)):
+                if ph[0] == 'phi' and pm(ph[2]) and pm(ph[3]) and ph[2] != ph[3]:
+                    return ('phi', ph[1], signed(S, ph[2], n[2][1]), signed(S, ph[3], n[2][1]))
+        if n[0] == 'op' and n[1] == 'mul' and len(n[2]) == 2:
+            a, b = n[2]
+            for Q, ph in ((a, b), (b, a)):
+                if ph[0] == 'phi' and pm(ph[2]) and pm(ph[3]) and ph[2] != ph[3] and Q[0] == 'op' and Q[1] == 'div':
+                    return ('phi', ph[1], signed(Q[2][0], ph[2], Q[2][1]), signed(Q[2][0], ph[3], Q[2][1]))
+        return n
+    return map_term(fed, rw)
+
+
 def pfe_decompose(F, v, m, Ns):
     """For each N: ('ok', N, DX, H, segs, unit) with the ratio sqrt(DX² + H²) / Σ sqrt(seg² + c) evaluated over symbolic window
     values q0..q(N−1) (oldest first), or ('shape', why). DX and the segments are linear forms over the window values."""
@@ -130,6 +156,7 @@ def pfe_decompose(F, v, m, Ns):
                 fed = arg
     ratio = None
     if fed is not None:
+        fed = pfe_sign_normal(fed)
         for x in subterms(fed):
             if x[0] == 'op' and x[1] == 'div' and x[2][0][0] == 'op' and x[2][0][1] == 'sqrt' and any(y[0] == 'fold' for y in subterms(x[2][1])):
                 ratio = x
